@@ -420,7 +420,11 @@ func (vc *VC) arraySort(x *sexp) string {
 // alternatives are then not executed at all. The query is recorded as a
 // discharged obligation of kind "dead-branch" so that it is visible in the
 // evidence like every other solver-backed step.
-func (vc *VC) infeasible(cond, note string) bool {
+func (vc *VC) infeasible(cond, note string) bool { return vc.infeasibleT(cond, note, 3) }
+
+// infeasibleT asks the solvers (z3-new alone for short budgets, all three otherwise) whether cond is
+// unsatisfiable in the current context; if so the fact is recorded as a discharged obligation and assumed.
+func (vc *VC) infeasibleT(cond, note string, timeoutS int) bool {
 	if cond == "false" {
 		return true
 	}
@@ -436,7 +440,11 @@ func (vc *VC) infeasible(cond, note string) bool {
 	defer os.Remove(f.Name())
 	f.WriteString(o.script(nil))
 	f.Close()
-	r := race(f.Name(), 3, 0, solvers[:1])
+	which := solvers[:1]
+	if timeoutS > 5 {
+		which = solvers
+	}
+	r := race(f.Name(), timeoutS, 0, which)
 	if r.status != "unsat" {
 		return false
 	}
